@@ -150,7 +150,58 @@ func ruleR031(c *Ctx) {
 		}
 		return true
 	})
-	if opCall == nil || len(opCall.Args) != 3 {
+	if opCall == nil {
+		// the next level as a method value of a small struct: operatorLevel{parser: p, op: op + 1}.parse
+		done := false
+		ast.Inspect(thenBranch, func(n ast.Node) bool {
+			sel, ok := n.(*ast.SelectorExpr)
+			if !ok || done {
+				return true
+			}
+			fs, ok := info.Selections[sel]
+			if !ok || fs.Kind() != types.MethodVal {
+				return true
+			}
+			cl, ok := ast.Unparen(sel.X).(*ast.CompositeLit)
+			m, _ := fs.Obj().(*types.Func)
+			if !ok || m == nil {
+				return true
+			}
+			md := findFuncDecl(root, m)
+			if md == nil || md.Body == nil || md.Recv == nil || len(md.Recv.List[0].Names) != 1 {
+				return true
+			}
+			recv := info.Defs[md.Recv.List[0].Names[0]]
+			var inner *ast.CallExpr
+			ast.Inspect(md.Body, func(y ast.Node) bool {
+				if call, ok := y.(*ast.CallExpr); ok && isCallTo(info, call, parseOp) && len(call.Args) == 3 {
+					inner = call
+				}
+				return true
+			})
+			if inner == nil {
+				return true
+			}
+			// the level argument: a field of the receiver, bound in the literal
+			if fsel, ok := ast.Unparen(inner.Args[1]).(*ast.SelectorExpr); ok {
+				if id, ok := ast.Unparen(fsel.X).(*ast.Ident); ok && info.ObjectOf(id) == recv {
+					for _, el := range cl.Elts {
+						if kv, ok := el.(*ast.KeyValueExpr); ok {
+							if k, ok := kv.Key.(*ast.Ident); ok && k.Name == fsel.Sel.Name {
+								done = true
+								got := env.eval(kv.Value)
+								c.Check(got.eq(symVar(opKey).add(linConst(1))), key+"#descend", sel.Pos(), "next level is parseOp(op+1) (level bound in the method value)", "next level is parseOp("+symStr(got)+") instead of parseOp(op+1): operators of one priority are parsed at the wrong level")
+							}
+						}
+					}
+				}
+			}
+			return true
+		})
+		if !done {
+			c.Violation(key+"#descend", ifs.Body.Pos(), "the branch for op+1 < len(operators) does not call parseOp")
+		}
+	} else if len(opCall.Args) != 3 {
 		c.Violation(key+"#descend", ifs.Body.Pos(), "the branch for op+1 < len(operators) does not call parseOp")
 	} else {
 		got := env.eval(opCall.Args[1])
